@@ -42,6 +42,16 @@ func (core *JApiCore) drainCurrentScanner() *jerr.JApiError {
 			break
 		}
 
+		if core.afterInclude {
+			core.afterInclude = false
+			switch lexeme.Type() { //nolint:exhaustive // Only these two can belong to the INCLUDE line.
+			case scanner.Parameter:
+				return core.japiError("the INCLUDE directive has only one parameter", lexeme.Begin())
+			case scanner.Annotation:
+				return core.japiError(jerr.AnnotationIsForbiddenForTheDirective, lexeme.Begin())
+			}
+		}
+
 		if isIncludeKeyword(lexeme) {
 			je = core.processInclude(lexeme)
 		} else {
@@ -192,6 +202,7 @@ func (core *JApiCore) isScanningFinished() bool {
 		return true
 	}
 	core.scanner = s
+	core.afterInclude = true
 	return false
 }
 
